@@ -556,6 +556,24 @@ def run_inprocess(spec):
         if len(items) < 3:
             res.inconclusive.append(f"callback-only channel got {len(items)} of 3 items")
         probe("after items for a callback-only channel")
+        # ... and from inside a channel callback (the thread that is receiving for the gateway at that moment)
+        seen_in_cb: list = []
+
+        def loading_callback(item):
+            for d in chan_inputs:
+                seen_in_cb.append((d, outcome(d)))
+
+        cbch = gw.remote_exec("channel.send('go')")
+        cbch.setcallback(loading_callback)
+        t_end = time.monotonic() + 20
+        while len(seen_in_cb) < len(chan_inputs) and time.monotonic() < t_end:
+            time.sleep(0.02)
+        res.count("loads_called_from_a_channel_callback", len(seen_in_cb))
+        for d, o in seen_in_cb:
+            if o != expected[d]:
+                res.violation("loads-outcome-depends-on-gateway-activity", f"called from a channel callback: {o} instead of {expected[d]} for hex={d.hex()}")
+        if len(seen_in_cb) < len(chan_inputs):
+            res.inconclusive.append(f"callback ran {len(seen_in_cb)} of {len(chan_inputs)} loads")
         ch = gw.remote_exec("c = channel.receive()\nc.send(b'bytes')\nchannel.send(channel.receive())")
         ch.reconfigure(py2str_as_py3str=False, py3str_as_py2str=True)
         sub = gw.newchannel()
